@@ -67,6 +67,10 @@ func (g *mergeGen) typ(depth int) reflect.Type {
 		for i := 0; i < n; i++ {
 			fs = append(fs, reflect.StructField{Name: "F" + strconv.Itoa(i), Type: g.typ(depth + 1), Tag: reflect.StructTag(fmt.Sprintf(`json:"f%d"`, i))})
 		}
+		if s.Chance(1, 4) {
+			// an embedded fallback map collects the members no field claims; it merges like a map field
+			fs = append(fs, reflect.StructField{Name: "X", Type: reflect.MapOf(reflect.TypeFor[string](), g.typ(depth+1)), Tag: `json:",embed"`})
+		}
 		return reflect.StructOf(fs)
 	}
 }
@@ -206,7 +210,12 @@ func (g *mergeGen) fit(b []byte, t reflect.Type, depth int, anyLen bool) []byte 
 	case reflect.Struct:
 		b = append(b, '{')
 		first := true
+		var fallback reflect.Type
 		for i := 0; i < t.NumField(); i++ {
+			if t.Field(i).Tag == `json:",embed"` {
+				fallback = t.Field(i).Type.Elem()
+				continue
+			}
 			if !s.Chance(3, 5) {
 				continue
 			}
@@ -218,6 +227,22 @@ func (g *mergeGen) fit(b []byte, t reflect.Type, depth int, anyLen bool) []byte 
 			b = strconv.AppendInt(b, int64(i), 10)
 			b = append(b, '"', ':')
 			b = g.fit(b, t.Field(i).Type, depth+1, anyLen)
+		}
+		if fallback != nil {
+			for k := 0; k < 3; k++ {
+				if !s.Chance(1, 2) {
+					continue
+				}
+				if !first {
+					b = append(b, ',')
+				}
+				first = false
+				b = append(b, '"', 'u')
+				b = strconv.AppendInt(b, int64(k), 10)
+				b = append(b, '"', ':')
+				b = g.fit(b, fallback, depth+1, anyLen)
+			}
+			return append(b, '}')
 		}
 		if s.Chance(1, 5) {
 			if !first {
@@ -488,13 +513,17 @@ func (g *semGen) fitBad(b []byte, t reflect.Type, ptr string) []byte {
 				b = append(b, ',')
 			}
 			name := "f" + strconv.Itoa(i)
+			ft := t.Field(i).Type
+			if t.Field(i).Tag == `json:",embed"` {
+				name, ft = "u0", ft.Elem() // a member that only the embedded fallback map claims
+			}
 			b = append(b, '"')
 			b = append(b, name...)
 			b = append(b, '"', ':')
 			if s.Chance(1, 3) {
 				b = append(b, ' ')
 			}
-			b = g.fitBad(b, t.Field(i).Type, ptr+"/"+name)
+			b = g.fitBad(b, ft, ptr+"/"+name)
 		}
 		return append(b, '}')
 	}
